@@ -11,6 +11,9 @@ NOTE = ("Trusted base: the Go type checker (go/types), go/packages loading of /r
 
 # id -> (technique, level text, design ref)
 CLAIMS = {
+ "C32": ("operation/estimate coherence (AST: usage constructor kind and operand order vs the big.Int operation of the same function) + dominance of UseMemory over the allocating constructor call (SSA)",
+         "Structural necessary conditions: each per-operation big-integer estimate is charged for the operation actually performed with the same operands, and memory is charged before the result is allocated.",
+         "DESIGN.md §4 C32"),
  "C18": ("name agreement of hash-input type tags (resolved constants per HashInput method) + operator/method agreement of the comparison methods (AST of the returned expression) + sibling unification",
          "Structural necessary conditions: every hashable value kind tags its hash input with its own type tag, each comparison method applies the operator its name states, and sibling widths implement comparisons identically.",
          "DESIGN.md §4 C18"),
